@@ -50,6 +50,12 @@ to the constructors the writer declares (CAPS):
                                               in front of a table as its <caption>; <th> cells; thead/tbody/tfoot row groups; <ol>; h4..h6
                html+as:split:<e>, epub+..     inline markup inside a word: every text = first half + <e>second half</e>,
                                               e in b i em strong span u font a sup sub small mark code
+               html+as:bare:<m>[:<c>], epub+. anonymous text: a paragraph written as a bare text node of its parent (body, li, td ...) instead of
+                                              an element of its own; m = tail (a paragraph that follows a sibling block: the text directly after
+                                              its end tag), head (the first paragraph of a longer block sequence: the text in front of the first
+                                              child element), all (every paragraph that does not directly follow another bare one, so also
+                                              <li>text</li>, <td>text</td>); alone, and with the sibling elements spelled as container c
+                                              (the tail of a captioned table, of a <th> table, of an <ol>, of a <pre>, of <h4> ...)
                mhtml+hdr:<cte>:<s>            header spellings of the root part that RFC 2045 / 5322 declare equivalent, cte in qp b64 x
                                               s in cte-title cte-upper cte-trail name-lower name-upper type-upper charset-bare
                                               charset-upper fold cte-first lf
@@ -57,8 +63,9 @@ to the constructors the writer declares (CAPS):
                                               second) written as a \\uN escape whose fallback is spelled f in: q (?), hex (\\'xx), letter,
                                               blank-q (delimiter blank, then ?), uc0 (no fallback), uc2 (two fallback bytes), group
                odg+nest, odp+nest             a text box anchored as a character inside a paragraph of a drawing page (box constructor)
-                                   quick: 11 containers, 3 split elements, 6 header spellings x 2, 5 fallback spellings (scope all; hex also second)
-                                   thorough: all 15 containers, 13 elements, 11 x 2 header spellings, 7 x 2 fallback spellings, and the
+                                   quick: 11 containers, 3 split elements, 3 bare modes + tail x 8 containers + all x caption + head x ol,
+                                          6 header spellings x 2, 5 fallback spellings (scope all; hex also second)
+                                   thorough: all 15 containers, 13 elements, 3 bare modes x (ordinary siblings + all 15 containers), 11 x 2 header spellings, 7 x 2 fallback spellings, and the
                                    thorough C-family
              A variant is judged where the base spelling of the same term passes (a clause that fails for the base format too is the
              base format's finding).
@@ -392,6 +399,8 @@ def variant_formats(tier):
         out += ["html+as:" + v, "epub+as:" + v]
     for v in (V.HTML_SPLIT_QUICK if q else V.HTML_SPLIT):
         out += ["html+as:split:" + v, "epub+as:split:" + v]
+    for v in (V.HTML_BARE_QUICK if q else V.HTML_BARE):
+        out += ["html+as:" + v, "epub+as:" + v]
     for cte in V.MIME_CTE:
         for v in (V.MIME_HDR_QUICK if q else V.MIME_HDR):
             out.append("mhtml+hdr:%s:%s" % (cte, v))
@@ -1678,9 +1687,17 @@ def evaluate(fmt, doc):
     format as well are the base format's findings and are reported there, once."""
     fails, oc = _evaluate1(fmt, doc)
     base = _base_of(fmt) if fails else None
-    if base:
+    bases = [base] if base else []
+    var = _variant(fmt)
+    if base and var[1] == "as" and var[2].startswith("bare:") and var[2].count(":") == 2:
+        # a combined spelling (bare text + sibling container) is judged where each of its two component spellings passes as well
+        _, mode, cont = var[2].split(":")
+        bases += ["%s+as:bare:%s" % (base, mode), "%s+as:%s" % (base, cont)]
+    for b in bases:
+        if not fails:
+            break
         sig = _LAST["sig"]
-        bfails, boc = _evaluate1(base, doc)
+        bfails, boc = _evaluate1(b, doc)
         _LAST["sig"] = sig
         shared = set(c for c, _ in bfails)
         if boc is not None and shared:
@@ -2115,8 +2132,8 @@ def run(ctx):
     cov = {"evaluations": ev, "distinct_nontrivial": sum(len(v) for v in sigs.values()), "outcome_classes": len(outcomes), "exhaustive": True, "inexpressible_terms_skipped": skipped,
            "rule": "every ADM term of the S-, C-, E-, M-, H- (documents; H = comment / tracked-deletion bodies) and G-, M-, N- (spreadsheets; N = cell comments and their bodies) families within the tier bounds (M = every assignment "
                    "of texts to the leaves of a small document / grid in which a text occurs several times, also run-length encoded for ODF), restricted to each "
-                   "writer's CAPS, rendered by the reference writer - and, for the C-family, by every spelling variant of the V-family (HTML / EPUB containers and "
-                   "inline markup inside words, MIME header spellings of MHTML parts, RTF \\uN fallback spellings, text boxes nested in ODF drawing paragraphs) - "
+                   "writer's CAPS, rendered by the reference writer - and, for the C-family, by every spelling variant of the V-family (HTML / EPUB containers, "
+                   "anonymous text (paragraphs as bare text nodes in front of / directly after sibling block elements) and inline markup inside words, MIME header spellings of MHTML parts, RTF \\uN fallback spellings, text boxes nested in ODF drawing paragraphs) - "
                    "and extracted by the real extractor; every extraction is read twice (full text, units, tables, full text again) and both full texts are judged; evaluations = (format, term) pairs "
                    "extracted and judged on all applicable clauses; distinct_nontrivial = distinct (format, output layout) pairs observed, a layout "
                    "being the extracted text with tokens abstracted to T and every white-space run to its strongest character; outcome_classes = "
@@ -2136,7 +2153,9 @@ ASSUMPTIONS = [
     "spelling variants are equivalent sources: MIME tokens, parameter names and header field names are case-insensitive and headers may be "
     "folded / reordered (RFC 2045 5.1, 6.1; RFC 5322 2.2); a \\uN escape is followed by \\ucN fallback characters (default 1), each a plain "
     "character or a \\'xx byte, and a blank after the number is the delimiter of the control word (RTF 1.9.1, Unicode RTF); phrasing elements "
-    "(b, i, span, a ...) do not separate words; caption, th, figcaption, dt, dd, blockquote, pre, div ... hold visible body text",
+    "(b, i, span, a ...) do not separate words; caption, th, figcaption, dt, dd, blockquote, pre, div ... hold visible body text; "
+    "a text node that is a sibling of block-level elements (in front of the first child element, or directly after the end tag of a table, list, "
+    "paragraph, heading ...) is an anonymous block of its own: visible body text, separated from its siblings like a paragraph",
     "a spelling variant is judged only on clauses that hold for the base spelling of the same term (shared failures belong to the base format)",
     "the text of a spreadsheet cell comment is a comment (hidden class): it must not appear in get_full_text()",
     "every text leaf of the body of a comment (paragraphs, list items at any depth, spans) is comment text, and every text leaf of the body "
